@@ -207,6 +207,11 @@ def run(chk):
         if case % 15 == 0:
             chk.add_sample({"call": what[:300], "code": code[:600]})
     chk.judge(chunk=300)
+    if chk.tier != "quick":
+        # system-level workflows (spec/Pipeline.tla): the steps that belong
+        # to this property's operations
+        from .pipeline import run_pipelines
+        run_pipelines(chk, "C17")
     return chk.finish(
         rule="seeded sums of 1-3 terms (all tensor kinds, squares, traces, "
              "symbols, sqrt prefactors, optional antisymmetrisation in a "
